@@ -65,6 +65,26 @@ def run(R, tier, rng):
                     try: e = [int(x) for x in p.sliding_window(w)]
                     except Exception: e = None
                     add("bit_window " + show(a) + " " + str(b) + " " + str(w), e, "window", a)
+    # lengths beyond any plausible block size / threshold (a block boundary that is not a register boundary for some b)
+    for b in (1, 2, 4, 8, 16, 32):
+        k = 64 // b
+        for n in (4001, 4099) + ((8193,) if tier == "thorough" else ()):
+            a = [rng.randrange(2 ** b) for i in range(n)]; a[4000] = 2 ** b - 1
+            p = BitArray.pack(np.array(a, dtype=np.uint64), b)
+            try: e = [int(x) for x in p.unpack()]
+            except Exception: e = None
+            add("bit_unpack " + show(a) + " " + str(b), e, "unpack/long", a)
+            idx = [rng.randrange(n) for _ in range(90)] + list(range(3990, 4010))
+            try: e = [int(x) for x in p[idx].unpack()]
+            except Exception: e = None
+            add("bit_getlist " + show(a) + " " + str(b) + " " + show(idx), e, "getlist/long", a)
+            for w in sorted({1, max(1, k - 1), k}):
+                try: e = [int(x) for x in p.sliding_window(w)]
+                except Exception: e = None
+                add("bit_window " + show(a) + " " + str(b) + " " + str(w), e, "window/long", a)
+            try: e = [int(x) for x in p.unpack()]
+            except Exception: e = None
+            add("bit_unpack " + show(a) + " " + str(b), e, "unpack-after-reads/long", a)
     out = oracle([c[0] for c in cases])
     for (line, impl, kind, nt), o in zip(cases, out):
         if o.startswith("ERR"):
